@@ -269,6 +269,9 @@ func init() {
 								r.Cond(!dependsOnMemberIndex(e), "C47.slot-shape", FnName(f)+"#wait/submitter", wc.Pos(), "the submitter's precedence slot does not depend on the index")
 							}
 						}
+						subsA := Sites(f, `^invoke:pkg/tbtc\.Chain\.OnDKGResultApproved$`, false)
+						r.Cond(len(subsA) == 1 && InstrBefore(subsA[0].(ssa.Instruction), wc.(ssa.Instruction)), "C47.submit-gate", FnName(f)+"#subscribe-before-wait", wc.Pos(),
+							"the approved-event subscription (which cancels the wait) is installed before waiting for the slot")
 						r.CheckCalls("C47.submit-gate", f, `^invoke:pkg/tbtc\.Chain\.ApproveDKGResult$`, 1,
 							`^\+\(dyn:.*waitForBlockFn\(.*\) == nil\)$`, `^\+\(invoke:context\.Context\.Err\(.*\) == nil\)$`)
 					}
@@ -317,6 +320,17 @@ func init() {
 						r.Cond(ok, "C47.submit-gate", FnName(of)+"#"+shortCallee(c)+"/own-slot-branch", c.Pos(), "submit only in the select branch that fires at the member's own slot; the submitted-event branch returns without submitting")
 						r.Check("C47.submit-gate", FnName(of)+"#"+shortCallee(c)+"/eligibility-ok", c.Pos(), Facts(c.Block()), okOf(b.waitCallee))
 						if b.rel == "pkg/beacon/dkg/result" {
+							// subscribe first, check second: a result landing between a
+							// check and a later subscription would be missed
+							subs := Sites(of, `^invoke:pkg/beacon/chain\.Interface\.OnDKGResultSubmitted$`, false)
+							chk := Sites(of, `^invoke:pkg/beacon/chain\.Interface\.IsGroupRegistered$`, false)
+							okOrd := len(subs) == 1 && len(chk) >= 1
+							for _, k := range chk {
+								if okOrd && !InstrBefore(subs[0].(ssa.Instruction), k.(ssa.Instruction)) {
+									okOrd = false
+								}
+							}
+							r.Cond(okOrd, "C47.submit-gate", FnName(of)+"#subscribe-before-check", c.Pos(), "the submitted-event subscription is installed before the already-registered check (no window in which a competing result is missed)")
 							r.Check("C47.submit-gate", FnName(of)+"#"+shortCallee(c)+"/not-registered", c.Pos(), Facts(c.Block()),
 								falseOf(`pkg/beacon/chain\.Interface\.IsGroupRegistered`), okOf(`pkg/beacon/chain\.Interface\.IsGroupRegistered`))
 						}
